@@ -5,6 +5,7 @@ import Mahotas.Proofs.C04Flood
 import Mahotas.Proofs.C04Term
 import Mahotas.Proofs.C04Lines
 import Mahotas.Proofs.C04Order
+import Mahotas.Proofs.C04LinesExact
 open Mahotas Mahotas.C04
 
 /-- **C04-T3 (the kernel is the specified flooding).** For every surface (any rank, shape, values),
@@ -207,3 +208,88 @@ hypotheses of `C04_order_isomorphism_invariant` hold between a surface and a non
 example :
     (mapSurf (denseRank #[5, -7, 100, 5, 0, 3]) ⟨[2, 3], #[5, -7, 100, 5, 0, 3]⟩ : Img Int).data
       = #[3, 0, 4, 3, 1, 2] := by decide +kernel
+
+/-- **C04-T8 (lines, exactly).** `cwatershedTrace` is the list of neighbour visits the kernel model
+performs, in order (defined in step with `modelRun`: same `extractMin`, same `modelVisit` fold): one
+event for every popped queue entry `next` and every entry of the neighbour table that passes the bounds
+decision, recording `next.position` (`pos`), `npos`, and what the kernel reads there at that moment:
+`status[npos]`, whether `npos` is in the queue, `rdata[next.position]` (`lab`) and `rdata[npos]` (`nlab`).
+For every surface, marker image, neighbourhood and flat index `i` — no hypothesis —
+(1) `lines[i]` is True in the output of the kernel model **iff** some visit of the trace looked at `i`
+while `status[i]` was grey and read two different labels — literally the C++
+`case grey: if (lines && rdata[next.position] != rdata[npos]) lines->at_flat(npos) = true`; and
+(2) the same with the *final* labels of the two pixels in place of the labels read at the visit (labels
+of non-white pixels are never written again; the popped pixel is black). -/
+theorem C04_lines_exact (surf markers : Img Int) (bshape : List Nat) (bc : Array Int) (i : Nat) :
+    ((cwatershedModel surf markers bshape bc).lines.getD i false = true ↔
+      ∃ ev ∈ cwatershedTrace surf markers bshape bc, ev.npos = i ∧ ev.status = 1 ∧ ev.lab ≠ ev.nlab) ∧
+    ((cwatershedModel surf markers bshape bc).lines.getD i false = true ↔
+      ∃ ev ∈ cwatershedTrace surf markers bshape bc, ev.npos = i ∧ ev.status = 1 ∧
+        (cwatershedModel surf markers bshape bc).res.getD ev.pos 0
+          ≠ (cwatershedModel surf markers bshape bc).res.getD i 0) :=
+  ⟨cwatershed_lines_exact surf markers bshape bc i, cwatershed_lines_exact_final surf markers bshape bc i⟩
+
+/-- **C04-T8a (the visits of the trace are what the words say).** For markers of the surface's shape and
+a neighbourhood of the surface's rank, every visit of the trace: pops a pixel of the image that is
+labelled; looks at a pixel of the image that is the popped pixel plus an offset of the neighbourhood;
+finds it grey exactly when it is in the queue at that moment (already labelled, not yet popped) and white
+exactly when it is still unlabelled; and the labels it reads are the final labels of the popped pixel
+and (unless white) of the neighbour. -/
+theorem C04_trace_visits (surf markers : Img Int) (bshape : List Nat) (bc : Array Int)
+    (hm : markers.shape = surf.shape) (hb : bshape.length = surf.shape.length) :
+    ∀ ev ∈ cwatershedTrace surf markers bshape bc,
+      ev.pos < shapeSize surf.shape ∧ ev.npos < shapeSize surf.shape ∧
+      (∃ o ∈ offsets bshape bc, unravelI surf.shape ev.npos = addPos (unravelI surf.shape ev.pos) o) ∧
+      (ev.status = 1 ↔ ev.queued = true) ∧ (ev.status = 0 ↔ ev.nlab = 0) ∧ ev.lab ≠ 0 ∧
+      ev.lab = (cwatershedModel surf markers bshape bc).res.getD ev.pos 0 ∧
+      (ev.status ≠ 0 → ev.nlab = (cwatershedModel surf markers bshape bc).res.getD ev.npos 0) := by
+  intro ev hev
+  have g := cwatershedTrace_good surf markers bshape bc hm hb ev hev
+  have f := modelTrace_final surf (neighbours surf.shape (offsets bshape bc)) (fuelOf surf.shape)
+    (modelInit surf markers) (modelInit_sized surf markers) ev hev
+  exact ⟨g.pos_lt, g.npos_lt, g.nb, g.grey, g.white, g.lab, f.1, f.2⟩
+
+/-- **C04-T8b (lines = queued pixels visited from another label).** For markers of the surface's shape
+and a neighbourhood of the surface's rank: a pixel `i` is True in the lines output — of the kernel model
+and of the specification flooding alike — **iff** at some visit of the trace `i` was looked at from a
+popped pixel while `i` was in the queue (labelled, not yet popped) and the final label of the popped
+pixel differs from the final label of `i`. (By `C04_trace_visits` that visit goes from a labelled pixel
+of the image through an offset of the neighbourhood, so this sharpens `C04_lines_on_boundaries` to an
+equivalence.) -/
+theorem C04_lines_exact_queued (surf markers : Img Int) (bshape : List Nat) (bc : Array Int)
+    (hm : markers.shape = surf.shape) (hb : bshape.length = surf.shape.length) (i : Nat) :
+    ((cwatershedModel surf markers bshape bc).lines.getD i false = true ↔
+      ∃ ev ∈ cwatershedTrace surf markers bshape bc, ev.npos = i ∧ ev.queued = true ∧
+        (cwatershedModel surf markers bshape bc).res.getD ev.pos 0
+          ≠ (cwatershedModel surf markers bshape bc).res.getD i 0) ∧
+    ((cwatershedSpec surf markers bshape bc).lines.data.getD i false = true ↔
+      ∃ ev ∈ cwatershedTrace surf markers bshape bc, ev.npos = i ∧ ev.queued = true ∧
+        (cwatershedSpec surf markers bshape bc).label.data.getD ev.pos 0
+          ≠ (cwatershedSpec surf markers bshape bc).label.data.getD i 0) := by
+  have key : (cwatershedModel surf markers bshape bc).lines.getD i false = true ↔
+      ∃ ev ∈ cwatershedTrace surf markers bshape bc, ev.npos = i ∧ ev.queued = true ∧
+        (cwatershedModel surf markers bshape bc).res.getD ev.pos 0
+          ≠ (cwatershedModel surf markers bshape bc).res.getD i 0 := by
+    rw [cwatershed_lines_exact_final]
+    constructor
+    · rintro ⟨ev, hev, h1, h2, h3⟩
+      exact ⟨ev, hev, h1, (cwatershedTrace_good surf markers bshape bc hm hb ev hev).grey.1 h2, h3⟩
+    · rintro ⟨ev, hev, h1, h2, h3⟩
+      exact ⟨ev, hev, h1, (cwatershedTrace_good surf markers bshape bc hm hb ev hev).grey.2 h2, h3⟩
+  have r := C04_model_refines_flood surf markers bshape bc hm hb
+  refine ⟨key, ?_⟩
+  rw [← r.1, ← r.2.1]
+  exact key
+
+/-- non-vacuity of T8: on the 2×3 example the trace has 14 visits; exactly three of them satisfy the
+C++ condition, at the pixels 1, 3 and 2 (each queued at that moment), and these are the True pixels -/
+example :
+    let surf : Img Int := ⟨[2, 3], #[0, 1, 2, 1, 0, 1]⟩
+    let mk : Img Int := ⟨[2, 3], #[1, 0, 0, 0, 0, 2]⟩
+    let bc : Array Int := #[0, 1, 0, 1, 1, 1, 0, 1, 0]
+    (cwatershedTrace surf mk [3, 3] bc).length = 14 ∧
+    ((cwatershedTrace surf mk [3, 3] bc).filter (fun ev => ev.status == 1 && ev.lab != ev.nlab)).map
+        (fun ev => (ev.pos, ev.npos, ev.queued, ev.lab, ev.nlab))
+      = [(4, 1, true, 2, 1), (4, 3, true, 2, 1), (1, 2, true, 1, 2)] ∧
+    (cwatershedModel surf mk [3, 3] bc).lines = #[false, true, true, true, false, false] := by
+  decide +kernel
